@@ -247,6 +247,17 @@ fn wire_mutate(n: &mut RSchema, r: u64) -> Option<&'static str> {
                 };
                 Some("discriminant_width")
             }
+            6 if !variants.is_empty() => {
+                // the payload of one variant: a field-less variant gains a field, or a variant loses its last one
+                let i = (r >> 8) as usize % variants.len();
+                if variants[i].fields.is_empty() || (r >> 20) & 1 == 0 {
+                    variants[i].fields.push(RField { name: "added".into(), value: RSchema::Prim(RPrim::U32, 0), offset: None });
+                    Some("variant_field_added")
+                } else {
+                    variants[i].fields.pop();
+                    Some("variant_field_removed")
+                }
+            }
             _ => None,
         },
         RSchema::Array(c, _) => {
